@@ -4,20 +4,36 @@ import copy
 import json
 import warnings
 
+import numpy as np
+
 from core import TRUST_COMMON
 import histlib
 from props import c03
+
+# invalid option values that cannot even be compared with the stored ones (the comparison itself raises):
+# such a request is rejected before any step runs.  Pair oracle only (not part of the Lean-modelled alphabet).
+INCOMPARABLE = [
+    (["compute_tip_position", "correct_tip_offset"],
+     {"correct_tip_offset": {"method": np.array(["fit_constant_line", "frechet_direct_path"])}}),
+    (["compute_tip_position", "correct_force_offset", "correct_tip_offset", "correct_force_slope"],
+     {"correct_force_slope": {"region": np.array(["all", "baseline"]), "strategy": "shift"}}),
+]
 
 
 def pair_oracle(ctx, ncurves):
     """every ordered pair of (valid / invalid) requests, directly and through fit_model: the columns
     after the second request equal those of a fresh curve; a rejected request is rejected again and is
     not reported; raw data never change"""
-    reqs = c03.VALID_PIPES + c03.INVALID_PIPES
-    for cid in range(ncurves):
+    reqs = c03.VALID_PIPES + c03.INVALID_PIPES + INCOMPARABLE
+    nreg = len(reqs) - len(INCOMPARABLE)
+    # (curves 102, 103, 104: degenerate recordings - constant force, falling force, 60 samples - on which the
+    # contact-point estimators find nothing)
+    for cid in list(range(ncurves)) + [102, 103, 104]:
         for i, a in enumerate(reqs):
             for j, b_ in enumerate(reqs):
-                if ctx.tier == "quick" and (i * 7 + j * 3 + cid) % 3:
+                if cid >= 100 and ((i * 5 + j + cid) % (4 if ctx.tier == "quick" else 2) or max(i, j) >= nreg):
+                    continue
+                if ctx.tier == "quick" and (i * 7 + j * 3 + cid) % 3 and max(i, j) < nreg:
                     continue
                 for via in (False, True):
                     w = histlib.World(cid, ctx.rng)
@@ -36,6 +52,30 @@ def pair_oracle(ctx, ncurves):
                             except BaseException as e:  # noqa
                                 outs.append(type(e).__name__)
                     hist = [f"{'fit_model' if via else 'apply_preprocessing'}({s}, {o})" for s, o in (a, b_, b_)]
+                    # the same request once more, now asking for the details of the steps: accepted iff it was
+                    # accepted without them, and nothing changes
+                    # (fit columns may be dropped: asking for details re-runs the pipeline and resets the fit)
+                    datacols = lambda: {c: histlib.digest(w.idnt[c]) for c in w.idnt.columns  # noqa: E731
+                                        if c not in ("fit", "fit residuals", "fit range")}
+                    before = datacols() if outs[2] == "ok" else None
+                    with warnings.catch_warnings():
+                        warnings.simplefilter("ignore")
+                        try:
+                            w.idnt.apply_preprocessing(copy.deepcopy(b_[0]), copy.deepcopy(b_[1]), ret_details=True)
+                            outd = "ok"
+                        except BaseException as e:  # noqa
+                            outd = type(e).__name__
+                    if (outd == "ok") != (outs[2] == "ok"):
+                        ctx.violation("details-change-acceptance", f"the request is {outs[2]} without and {outd} "
+                                      "with ret_details=True", {"history": hist + ["... again with ret_details=True"],
+                                                                "curve": cid})
+                    elif before is not None:
+                        after = datacols()
+                        if after != before:
+                            ctx.violation("details-change-columns", "asking for the details of the applied pipeline "
+                                          "changes columns " + str(sorted(c for c in set(after) | set(before)
+                                                                          if after.get(c) != before.get(c))),
+                                          {"history": hist + ["... again with ret_details=True"], "curve": cid})
                     ctx.case({"pair": hist[:2], "curve": cid, "outcomes": outs},
                              nontrivial=json.dumps([cid, i, j, via]),
                              bucket=["stream=pairs", "first=" + ("ok" if outs[0] == "ok" else "rejected"),
@@ -45,7 +85,10 @@ def pair_oracle(ctx, ncurves):
                                       f"repeating the request gives {outs[2]} after {outs[1]}", {"history": hist})
                     fp = w.idnt.fit_properties
                     if outs[2] != "ok" and (fp.get("preprocessing") == b_[0] or "tip position" in w.idnt):
-                        if fp.get("preprocessing") == b_[0]:
+                        # (an incomparable request with the step list of the pipeline in place may be turned
+                        # down before anything is touched: that pipeline then legitimately stays reported)
+                        untouched = j >= nreg and a[0] == b_[0] and outs[0] == "ok"
+                        if fp.get("preprocessing") == b_[0] and not untouched:
                             ctx.violation("rejected-request-reported", "a rejected request is reported as the "
                                           "curve's preprocessing", {"history": hist})
                     if not w.raw_unchanged():
